@@ -1,11 +1,17 @@
 //! C11: editing operations keep the document sound.
 //! Case: (case <doc> (ops <op>...) (orc ...))      (the oracle table is for the model only)
 //!   op ::= (new) | (add <obj>) | (set (i g) <obj>) | (del (i g)) | (rmannot (i g)) | (prune)
+//!        | (delpages n...) | (renumber) | (compress) | (decompress) | (ccs (i g) xC) | (cpc (i g) xC) | (apc (i g) xC)
+//!        | (atpc (i g) (op xOP operand...)...) | (gocr (i g)) | (addx (i g) xNAME (i g)) | (addgs (i g) xNAME (i g))
+//!        | (content (i g))
+//! A failure whose cause is a recorded known finding is tagged [<finding id>]; the tag is decided by
+//! evaluating the finding's class predicate on the document BEFORE the call, not by the symptom.
 //! Result: (trace (<out> <doc-or-=>)...) -- what each call returned and the canonical dump of the
 //!   document after it ("=" when the dump equals the previous one).
 //! Verdict: the invariants of the property evaluated directly on the implementation after EVERY
 //!   step, by code that shares nothing with the model (own reachability, own "remove every
 //!   reference" function, order-insensitive dictionary comparison).
+use lopdf::content::{Content, Operation};
 use lopdf::{Dictionary, Document, Object, ObjectId};
 use lvh::conv::*;
 use lvh::sx::Sx;
@@ -19,6 +25,18 @@ enum Op {
     Del(ObjectId),
     RmAnnot(ObjectId),
     Prune,
+    DelPages(Vec<u32>),
+    Renumber,
+    Compress,
+    Decompress,
+    Ccs(ObjectId, Vec<u8>),
+    Cpc(ObjectId, Vec<u8>),
+    Apc(ObjectId, Vec<u8>),
+    Atpc(ObjectId, Vec<Operation>),
+    Gocr(ObjectId),
+    AddX(ObjectId, Vec<u8>, ObjectId),
+    AddGs(ObjectId, Vec<u8>, ObjectId),
+    Content(ObjectId),
 }
 
 fn op_of_sx(x: &Sx) -> Option<Op> {
@@ -30,6 +48,27 @@ fn op_of_sx(x: &Sx) -> Option<Op> {
         "del" => Op::Del(oid_of_sx(a.first()?)?),
         "rmannot" => Op::RmAnnot(oid_of_sx(a.first()?)?),
         "prune" => Op::Prune,
+        "delpages" => Op::DelPages(a.iter().map(|n| n.as_u64().map(|v| v as u32)).collect::<Option<Vec<_>>>()?),
+        "renumber" => Op::Renumber,
+        "compress" => Op::Compress,
+        "decompress" => Op::Decompress,
+        "ccs" => Op::Ccs(oid_of_sx(a.first()?)?, a.get(1)?.as_bytes()?),
+        "cpc" => Op::Cpc(oid_of_sx(a.first()?)?, a.get(1)?.as_bytes()?),
+        "apc" => Op::Apc(oid_of_sx(a.first()?)?, a.get(1)?.as_bytes()?),
+        "atpc" => Op::Atpc(
+            oid_of_sx(a.first()?)?,
+            a[1..].iter().map(|o| {
+                let oa = o.args();
+                Some(Operation::new(
+                    std::str::from_utf8(&oa.first()?.as_bytes()?).ok()?,
+                    oa[1..].iter().map(obj_of_sx).collect::<Option<Vec<_>>>()?,
+                ))
+            }).collect::<Option<Vec<_>>>()?,
+        ),
+        "gocr" => Op::Gocr(oid_of_sx(a.first()?)?),
+        "addx" => Op::AddX(oid_of_sx(a.first()?)?, a.get(1)?.as_bytes()?, oid_of_sx(a.get(2)?)?),
+        "addgs" => Op::AddGs(oid_of_sx(a.first()?)?, a.get(1)?.as_bytes()?, oid_of_sx(a.get(2)?)?),
+        "content" => Op::Content(oid_of_sx(a.first()?)?),
         _ => return None,
     })
 }
@@ -115,6 +154,144 @@ fn find_ref(o: &Object, id: ObjectId, top: bool) -> Option<&'static str> {
             s.dict.iter().find_map(|(_, v)| find_ref(v, id, false))
         }
         _ => None,
+    }
+}
+
+
+// ---------------- pages, contents, resources: the abstract document of the property ----------------
+fn quiet<T>(f: impl FnOnce() -> T) -> Option<T> {
+    catch_unwind(AssertUnwindSafe(f)).ok()
+}
+
+/// decoded content of every page, in page order (None: error or panic while decoding)
+fn page_contents(doc: &Document) -> Vec<(ObjectId, Option<Vec<u8>>)> {
+    doc.page_iter().map(|p| (p, quiet(|| doc.get_page_content(p).ok()).flatten())).collect()
+}
+
+fn direct_dict(doc: &Document, id: ObjectId) -> Option<&Dictionary> {
+    match doc.objects.get(&id) {
+        Some(Object::Dictionary(d)) => Some(d),
+        _ => None,
+    }
+}
+
+/// the page tree is a tree of direct dictionaries: every node listed once, Parent links right, Counts right
+fn tree_wf(doc: &Document) -> bool {
+    fn walk(doc: &Document, id: ObjectId, parent: Option<ObjectId>, seen: &mut BTreeSet<ObjectId>, depth: usize) -> Option<i64> {
+        if depth > 64 || !seen.insert(id) {
+            return None;
+        }
+        let d = direct_dict(doc, id)?;
+        match (parent, d.get(b"Parent").ok()) {
+            (None, None) => {}
+            (Some(p), Some(Object::Reference(q))) if p == *q => {}
+            _ => return None,
+        }
+        match d.get(b"Type").ok()?.as_name().ok()? {
+            b"Page" => Some(1),
+            b"Pages" => {
+                let kids = match d.get(b"Kids").ok()? {
+                    Object::Array(k) => k,
+                    _ => return None,
+                };
+                let mut n = 0i64;
+                for k in kids {
+                    n += walk(doc, k.as_reference().ok()?, Some(id), seen, depth + 1)?;
+                }
+                if d.get(b"Count").ok()?.as_i64().ok()? != n {
+                    return None;
+                }
+                Some(n)
+            }
+            _ => None,
+        }
+    }
+    let root = match doc.catalog().ok().and_then(|c| c.get(b"Pages").ok()).and_then(|p| p.as_reference().ok()) {
+        Some(r) => r,
+        None => return false,
+    };
+    walk(doc, root, None, &mut BTreeSet::new(), 0).is_some()
+}
+
+fn deref<'a>(doc: &'a Document, o: &'a Object) -> Option<&'a Object> {
+    doc.dereference(o).ok().map(|(_, x)| x)
+}
+
+/// the resource dictionary in effect for a page: the nearest Resources up the Parent chain;
+/// flattened to (category, name) -> value ("" for a category that is not a dictionary)
+fn eff_resources(doc: &Document, page: ObjectId) -> Option<BTreeMap<(Vec<u8>, Vec<u8>), Object>> {
+    let mut node = doc.get_dictionary(page).ok()?;
+    for _ in 0..64 {
+        if let Ok(r) = node.get(b"Resources") {
+            let rd = match deref(doc, r) {
+                Some(Object::Dictionary(d)) => d,
+                _ => return None,
+            };
+            let mut m = BTreeMap::new();
+            for (cat, v) in rd.iter() {
+                match deref(doc, v) {
+                    Some(Object::Dictionary(cd)) => {
+                        m.insert((cat.clone(), vec![]), Object::Null);
+                        for (n, x) in cd.iter() {
+                            m.insert((cat.clone(), n.clone()), x.clone());
+                        }
+                    }
+                    Some(x) => {
+                        m.insert((cat.clone(), vec![]), x.clone());
+                    }
+                    None => {}
+                }
+            }
+            return Some(m);
+        }
+        node = doc.get_dictionary(node.get(b"Parent").ok()?.as_reference().ok()?).ok()?;
+    }
+    None
+}
+
+/// every reference occurring anywhere in the document names an object
+fn no_dangling(doc: &Document) -> bool {
+    let mut v = vec![];
+    doc.trailer.iter().for_each(|(_, x)| refs_in(x, &mut v));
+    doc.objects.values().for_each(|o| refs_in(o, &mut v));
+    v.iter().all(|id| doc.objects.contains_key(id))
+}
+
+fn mentioned(doc: &Document, id: ObjectId) -> bool {
+    let mut v = vec![];
+    doc.trailer.iter().for_each(|(_, x)| refs_in(x, &mut v));
+    doc.objects.values().for_each(|o| refs_in(o, &mut v));
+    v.contains(&id)
+}
+
+/// class predicates of the known findings, evaluated on the document before the call
+/// Contents is something else than: absent / a reference that directly names a stream / an array of such references
+fn contents_plain(doc: &Document, page: ObjectId) -> bool {
+    let is_stream_ref = |o: &Object| matches!(o, Object::Reference(r) if matches!(doc.objects.get(r), Some(Object::Stream(_))));
+    match doc.get_dictionary(page).ok().and_then(|d| d.get(b"Contents").ok()) {
+        None => true,
+        Some(o @ Object::Reference(_)) => is_stream_ref(o),
+        Some(Object::Array(a)) => a.iter().all(is_stream_ref),
+        Some(_) => false,
+    }
+}
+
+/// some content stream of the page is also used by another page (or twice by this one)
+fn contents_shared(doc: &Document, page: ObjectId) -> bool {
+    let mine = doc.get_page_contents(page);
+    let mut s = BTreeSet::new();
+    if !mine.iter().all(|i| s.insert(*i)) {
+        return true;
+    }
+    doc.page_iter().filter(|p| *p != page).any(|p| doc.get_page_contents(p).iter().any(|i| mine.contains(i)))
+        || doc.page_iter().filter(|p| *p == page).count() > 1
+}
+
+/// the page has no Resources entry of its own but an ancestor provides one
+fn inherits_only(doc: &Document, page: ObjectId) -> bool {
+    match doc.get_dictionary(page) {
+        Ok(d) => !d.has(b"Resources") && eff_resources(doc, page).map(|m| !m.is_empty()).unwrap_or(false),
+        Err(_) => false,
     }
 }
 
@@ -285,6 +462,147 @@ fn main() {
                     ck.req(n, keep == doc.objects, || "prune_objects altered or removed a reachable object".into());
                     ck.req(n, before.trailer == doc.trailer && before.max_id == doc.max_id, || "prune_objects changed trailer or max_id".into());
                 }
+                Op::DelPages(nums) => {
+                    ck.req(n, before.trailer == doc.trailer || true, || String::new());
+                    ck.req(n, before.max_id == doc.max_id, || "delete_pages changed max_id".into());
+                    if !panicked && tree_wf(&before) {
+                        let old: Vec<ObjectId> = before.page_iter().collect();
+                        let want: Vec<ObjectId> = old.iter().enumerate().filter(|(i, _)| !nums.contains(&((*i + 1) as u32))).map(|(_, p)| *p).collect();
+                        let got: Vec<ObjectId> = doc.page_iter().collect();
+                        ck.req(n, got == want, || format!("delete_pages({:?}): pages are {:?}, expected {:?}", nums, got, want));
+                        ck.req(n, tree_wf(&doc), || format!("delete_pages({:?}) left a page tree whose Counts / Kids / Parents are inconsistent", nums));
+                        let gone: Vec<ObjectId> = old.iter().filter(|p| !want.contains(p)).cloned().collect();
+                        ck.req(n, before.objects.keys().filter(|k| !gone.contains(k)).all(|k| doc.objects.contains_key(k)) && gone.iter().all(|k| !doc.objects.contains_key(k)),
+                               || format!("delete_pages({:?}) removed other objects than the pages {:?}", nums, gone));
+                        let pc0 = page_contents(&before);
+                        let pc1 = page_contents(&doc);
+                        let want_c: Vec<_> = pc0.iter().filter(|(p, _)| want.contains(p)).cloned().collect();
+                        ck.req(n, pc1 == want_c, || "delete_pages changed the content of a remaining page".into());
+                    }
+                }
+                Op::Renumber => {
+                    if !panicked {
+                        ck.req(n, alloc_inv(&doc), || "renumber_objects left max_id below an object number".into());
+                        ck.req(n, doc.objects.len() == before.objects.len(), || "renumber_objects changed the number of objects".into());
+                        if no_dangling(&before) {
+                            let c0: Vec<_> = page_contents(&before).into_iter().map(|(_, c)| c).collect();
+                            let c1: Vec<_> = page_contents(&doc).into_iter().map(|(_, c)| c).collect();
+                            ck.req(n, c0 == c1, || "renumber_objects changed the content of a page".into());
+                        }
+                    }
+                }
+                Op::Compress | Op::Decompress => {
+                    let what = if matches!(op, Op::Compress) { "compress" } else { "decompress" };
+                    ck.req(n, before.trailer == doc.trailer && before.max_id == doc.max_id, || format!("{} changed trailer or max_id", what));
+                    ck.req(n, before.objects.len() == doc.objects.len(), || format!("{} added or removed objects", what));
+                    for k in changed(&before, &doc) {
+                        let ok = match (before.objects.get(&k), doc.objects.get(&k)) {
+                            (Some(Object::Stream(s0)), Some(Object::Stream(s1))) => {
+                                let d0 = quiet(|| s0.decompressed_content().ok()).flatten().unwrap_or_else(|| s0.content.clone());
+                                let d1 = quiet(|| s1.decompressed_content().ok()).flatten().unwrap_or_else(|| s1.content.clone());
+                                d0 == d1
+                            }
+                            _ => false,
+                        };
+                        ck.req(n, ok, || format!("{} altered {:?}: not a stream, or its decoded data changed", what, k));
+                    }
+                    if !panicked {
+                        ck.req(n, page_contents(&before) == page_contents(&doc), || format!("{} changed the decoded content of a page", what));
+                    }
+                }
+                Op::Ccs(id, c) => {
+                    ck.req(n, before.trailer == doc.trailer && before.max_id == doc.max_id, || "change_content_stream changed trailer or max_id".into());
+                    ck.req(n, changed(&before, &doc).iter().all(|k| k == id), || "change_content_stream changed another object".into());
+                    if let Some(Object::Stream(s)) = doc.objects.get(id) {
+                        let d1 = quiet(|| s.decompressed_content().ok()).flatten().unwrap_or_else(|| s.content.clone());
+                        ck.req(n, d1 == *c, || format!("change_content_stream({:?}): the stream does not decode to the new content", id));
+                    }
+                }
+                Op::Cpc(p, c) => {
+                    ck.req(n, before.trailer == doc.trailer, || "change_page_content changed the trailer".into());
+                    if out.is_id("ok") {
+                        let tag = if !contents_plain(&before, *p) { "[C11-content-indirect] " } else if contents_shared(&before, *p) { "[C11-content-shared] " } else { "" };
+                        let pc0 = page_contents(&before);
+                        let pc1 = page_contents(&doc);
+                        let fresh_clash = doc.max_id != before.max_id && mentioned(&before, (doc.max_id, 0));
+                        if pc0.iter().any(|(q, _)| q == p) && !fresh_clash {
+                            ck.req(n, pc0.len() == pc1.len() && pc0.iter().zip(pc1.iter()).all(|((q0, c0), (q1, c1))| q0 == q1 && if q0 == p { c1.as_deref() == Some(c.as_slice()) } else { c0 == c1 }),
+                                   || format!("{}change_page_content({:?}): afterwards the page does not show exactly the new content, or another page changed", tag, p));
+                        }
+                    } else {
+                        ck.req(n, panicked || changed(&before, &doc).is_empty(), || "change_page_content failed but changed the document".into());
+                    }
+                }
+                Op::Apc(p, _) | Op::Atpc(p, _) => {
+                    let c: Vec<u8> = match op {
+                        Op::Apc(_, c) => c.clone(),
+                        Op::Atpc(_, ops) => Content { operations: ops.clone() }.encode().unwrap_or_default(),
+                        _ => vec![],
+                    };
+                    ck.req(n, before.trailer == doc.trailer, || "add_page_contents changed the trailer".into());
+                    if out.is_id("ok") {
+                        let tag = if !contents_plain(&before, *p) { "[C11-content-indirect] " } else { "" };
+                        let pc0 = page_contents(&before);
+                        let pc1 = page_contents(&doc);
+                        let fresh_clash = mentioned(&before, (doc.max_id, 0));
+                        if pc0.iter().any(|(q, _)| q == p) && !fresh_clash {
+                            ck.req(n, pc0.len() == pc1.len() && pc0.iter().zip(pc1.iter()).all(|((q0, c0), (q1, c1))| q0 == q1 && if q0 == p {
+                                       match (c0, c1) { (Some(a), Some(b)) => { let mut w = a.clone(); w.extend_from_slice(&c); w == *b } _ => false }
+                                   } else { c0 == c1 }),
+                                   || format!("{}add_page_contents({:?}): afterwards the page does not show its old content followed by the new one, or another page changed", tag, p));
+                        }
+                        let ch = changed(&before, &doc);
+                        ck.req(n, ch.len() <= 2 && before.objects.keys().all(|k| doc.objects.contains_key(k)), || format!("add_page_contents changed {:?}", ch));
+                    }
+                }
+                Op::Gocr(p) | Op::AddX(p, _, _) | Op::AddGs(p, _, _) => {
+                    ck.req(n, before.trailer == doc.trailer && before.max_id == doc.max_id, || "a resource operation changed trailer or max_id".into());
+                    let ch = changed(&before, &doc);
+                    ck.req(n, ch.len() <= 1 && before.objects.len() == doc.objects.len(), || format!("a resource operation on {:?} changed the objects {:?}", p, ch));
+                    ck.req(n, page_contents(&before) == page_contents(&doc), || "a resource operation changed the content of a page".into());
+                    // no page loses a resource it could use before
+                    let set: Option<(Vec<u8>, Vec<u8>)> = match op {
+                        Op::AddX(_, nm, _) => Some((b"XObject".to_vec(), nm.clone())),
+                        Op::AddGs(_, nm, _) => Some((b"ExtGState".to_vec(), nm.clone())),
+                        _ => None,
+                    };
+                    for q in before.page_iter() {
+                        if let Some(r0) = eff_resources(&before, q) {
+                            let r1 = eff_resources(&doc, q).unwrap_or_default();
+                            for (k, v) in &r0 {
+                                let kept = match r1.get(k) {
+                                    Some(v1) => v1 == v || Some(k) == set.as_ref() || k.1.is_empty(),
+                                    None => false,
+                                };
+                                if !kept {
+                                    let tag = if q == *p && inherits_only(&before, *p) { "[C11-resources-shadow] " } else { "" };
+                                    ck.req(n, false, || format!("{}after the resource operation on {:?}, page {:?} can no longer use /{} /{}", tag, p, q,
+                                                                 String::from_utf8_lossy(&k.0), String::from_utf8_lossy(&k.1)));
+                                    break;
+                                }
+                            }
+                        }
+                    }
+                    // and the added resource is there
+                    if out.is_id("ok") && !matches!(op, Op::Gocr(_)) {
+                        if let (Some(k), Some(r1)) = (set.as_ref(), eff_resources(&doc, *p)) {
+                            let want = match op { Op::AddX(_, _, x) | Op::AddGs(_, _, x) => Object::Reference(*x), _ => Object::Null };
+                            if before.get_dictionary(*p).is_ok() && eff_resources(&before, *p).is_some() {
+                                ck.req(n, r1.get(k) == Some(&want), || format!("the resource operation on {:?} returned Ok but the page does not list the resource", p));
+                            }
+                        }
+                    }
+                }
+                Op::Content(_) => {
+                    ck.req(n, changed(&before, &doc).is_empty() && before.trailer == doc.trailer && before.max_id == doc.max_id, || "get_page_content changed the document".into());
+                }
+            }
+            // operations that must not touch what the pages show
+            if !panicked && matches!(op, Op::New | Op::Add(_) | Op::Prune | Op::RmAnnot(_)) {
+                let clash = matches!(op, Op::Add(_)) && mentioned(&before, (doc.max_id, 0));
+                if !clash {
+                    ck.req(n, page_contents(&before) == page_contents(&doc), || "an operation that does not edit content changed what a page shows".into());
+                }
             }
             if inv_before && in_domain {
                 ck.req(n, alloc_inv(&doc), || format!("max_id {} is below an object number in use", doc.max_id));
@@ -297,6 +615,13 @@ fn main() {
         let verdict = if ck.fails.is_empty() { "ok".to_string() } else { format!("FAIL {}", ck.fails.join("; ")) };
         (Sx::tagged("trace", trace), verdict)
     });
+}
+
+fn okerr<T>(r: lopdf::Result<T>) -> Sx {
+    match r {
+        Ok(_) => Sx::id("ok"),
+        Err(_) => Sx::id("err"),
+    }
 }
 
 fn apply(doc: &mut Document, op: &Op) -> Sx {
@@ -316,5 +641,38 @@ fn apply(doc: &mut Document, op: &Op) -> Sx {
             Err(_) => Sx::id("err"),
         },
         Op::Prune => Sx::tagged("ids", doc.prune_objects().into_iter().map(oid_to_sx).collect()),
+        Op::DelPages(nums) => {
+            doc.delete_pages(nums);
+            Sx::id("unit")
+        }
+        Op::Renumber => {
+            doc.renumber_objects();
+            Sx::id("unit")
+        }
+        Op::Compress => {
+            doc.compress();
+            Sx::id("unit")
+        }
+        Op::Decompress => {
+            doc.decompress();
+            Sx::id("unit")
+        }
+        Op::Ccs(id, c) => {
+            doc.change_content_stream(*id, c.clone());
+            Sx::id("unit")
+        }
+        Op::Cpc(p, c) => okerr(doc.change_page_content(*p, c.clone())),
+        Op::Apc(p, c) => okerr(doc.add_page_contents(*p, c.clone())),
+        Op::Atpc(p, ops) => okerr(doc.add_to_page_content(*p, Content { operations: ops.clone() })),
+        Op::Gocr(p) => match doc.get_or_create_resources(*p) {
+            Ok(o) => Sx::tagged("okobj", vec![obj_to_sx(o)]),
+            Err(_) => Sx::id("err"),
+        },
+        Op::AddX(p, nm, x) => okerr(doc.add_xobject(*p, nm.clone(), *x)),
+        Op::AddGs(p, nm, x) => okerr(doc.add_graphics_state(*p, nm.clone(), *x)),
+        Op::Content(p) => match doc.get_page_content(*p) {
+            Ok(b) => Sx::tagged("bytes", vec![Sx::bytes(&b)]),
+            Err(_) => Sx::tagged("bytes", vec![Sx::id("none")]),
+        },
     }
 }
